@@ -508,9 +508,11 @@ class SimRunner:
 
     def get_output_for(self, time: Time) -> OutputData:
         assert self.outputs is not None
-        for data_time, value in reversed(self.outputs.items()):
-            if data_time <= time:
-                return value
+        # The cache is not necessarily ordered by time (initial data,
+        # output with a time in the future).
+        data_times = [data_time for data_time in self.outputs if data_time <= time]
+        if data_times:
+            return self.outputs[max(data_times)]
 
         return {}
 
